@@ -1350,21 +1350,29 @@ def is_value_memo_store(prog: Program, f: FuncInfo, stmt: ast.stmt, cache: str) 
     computed now, earlier in the process or in an earlier process makes no difference to what is read back."""
     if not isinstance(stmt, ast.Assign):
         return False
-    subs = [t for t in stmt.targets if isinstance(t, ast.Subscript) and isinstance(t.value, ast.Name) and t.value.id == cache]
+    # `cache` is the source text of the container: a module-level name, or an attribute of the object (`self._cache`)
+    subs = [t for t in stmt.targets if isinstance(t, ast.Subscript) and src(t.value) == cache]
     if len(subs) != 1:
         return False
     if not _injective_key(f, subs[0].slice):
         return False
     kl = {x for x in dep_leaves(prog, f, subs[0].slice) if not x.startswith("call:")}
     vl = dep_leaves(prog, f, stmt.value)
-    if any(x.startswith("self.") or (f.self_name and x.startswith(f.self_name + ".")) for x in vl):
-        return False
+    me = f.self_name or "self"
+    on_object = cache.startswith(me + ".")
+    for x in vl:
+        if x.startswith(("self.", me + ".")) and x not in kl:
+            # what the value reads from the object must be part of the key - or, for a memo kept on that same object, configuration (stored by the constructor only)
+            attr = x.split(".", 1)[1].split(".")[0].split("[")[0]
+            stores = prog.attr_stores(f.cls, inherited=True).get(attr, []) if (on_object and f.cls is not None) else None
+            if stores is None or not stores or any(g.name != "__init__" for g, _s, _v in stores):
+                return False
     for x in vl:
         if x.startswith("call:"):
             q = prog.qualify(f.module, x[5:]) or x[5:]
             if "random" in q or q.startswith(("time.", "os.", "uuid.")):
                 return False
-    data = {x for x in vl if not x.startswith("call:")}
+    data = {x for x in vl if not x.startswith("call:") and not x.startswith(("self.", me + "."))}
     if not (bool(kl) and data <= kl):
         return False
     return not memo_value_written(prog, f, stmt, cache)
@@ -1417,8 +1425,8 @@ def memo_value_written(prog: Program, f: FuncInfo, stmt: ast.Assign, cache: str)
     for x in ast.walk(f.node):
         if isinstance(x, (ast.Assign, ast.AnnAssign)) and x.value is not None:
             v = x.value
-            reads = (isinstance(v, ast.Subscript) and isinstance(v.value, ast.Name) and v.value.id == cache) or (
-                isinstance(v, ast.Call) and isinstance(v.func, ast.Attribute) and isinstance(v.func.value, ast.Name) and v.func.value.id == cache and v.func.attr in ("get", "setdefault", "pop"))
+            reads = (isinstance(v, ast.Subscript) and src(v.value) == cache) or (
+                isinstance(v, ast.Call) and isinstance(v.func, ast.Attribute) and src(v.func.value) == cache and v.func.attr in ("get", "setdefault", "pop"))
             if isinstance(v, ast.NamedExpr):
                 reads = reads or False
             if reads:
